@@ -447,6 +447,7 @@ def twins(tier, seed):
     yield 'h_seq', dict(types=['vu4'], twin='plus1')
 
 
+INSTANCE_TIMEOUT = {'quick': 120, 'thorough': 1500}
 BOUNDS = {
     'integers': 'every value of the width; widths: quick = boundary set, thorough = 1..257',
     'variable-length integers': 'every value representable with the length field: 2,3,4 bits (quick), 2..5 bits (thorough)',
